@@ -230,6 +230,10 @@ class VRPState:
         n = len(customers)
         n_vehicles = len(vehicles)
 
+        # Routes, distances and the unassigned set all name a customer by its position in this list
+        if [c.id for c in customers] != list(range(n)):
+            raise ValueError("customer ids must equal their position: 0 for the depot, then 1..n in input order")
+
         dist = [[0.0] * n for _ in range(n)]
         for i in range(n):
             for j in range(i + 1, n):
